@@ -315,6 +315,8 @@ Proof.
   { destruct a as [|blob [|tract [|off [|len [|nt tries]]]]]; apply srel_refl. }
   destruct (c =? 81) eqn:C81; [apply Z.eqb_eq in C81; subst c; discriminate|].
   destruct (c =? 82); [apply srel_refl|].
+  destruct (c =? 84); [apply srel_refl|].
+  destruct (c =? 83); [apply srel_refl|].
   destruct (c =? 31).
   { destruct a as [|blob [|]]; try apply srel_refl. destruct (Cluster.Model.zget _ _); apply srel_refl. }
   apply srel_refl.
